@@ -324,7 +324,7 @@ fn exec(toks: &[String]) -> String {
                 Some(None) => tb.add_change_if_needed(&caddr),
                 Some(Some(d)) => tb.add_change_if_needed_with_datum(&caddr, &d),
             };
-            if r.is_err() { return "err:change".into(); }
+            if let Err(e) = &r { if std::env::var("VERIF_DEBUG").is_ok() { eprintln!("change: {}", e.to_string()); } return "err:change".into(); }
             let full = tb.full_size().map(|x| x as i128).unwrap_or(-1);
             match tb.build_tx() {
                 Err(e) => { if std::env::var("VERIF_DEBUG").is_ok() { eprintln!("build_tx: {}", e.to_string()); }
@@ -447,7 +447,7 @@ fn gen(dir: &str) {
     let seed = seed_from_env();
     let mut r = Rng::new(seed ^ 0xC07C07);
     let mut out = Out::new(dir);
-    let scale: u64 = if is_thorough() { 12 } else { 1 };
+    let scale: u64 = if is_thorough() { 60 } else { 2 };
     let emit = |out: &mut Out, line: String| {
         let toks: Vec<String> = line.split_whitespace().map(|s| s.to_string()).collect();
         let res = guarded(move || exec(&toks));
@@ -558,6 +558,19 @@ fn gen(dir: &str) {
         for o in &outs { line.push_str(&format!(" {}", show_out(o))); }
         line.push_str(&format!(" C {} {} {} {} {}", ck, cl, dat.kind, dat.param, dat.len));
         emit(&mut out, line);
+    }
+    // pure-ADA change output next to its minimum on a 58/59-byte change address (10 M lovelace per byte: the bundle's
+    // output is admitted thanks to the 9-byte-coin pricing, the pure output lands between the fake-address minimum and the real one)
+    for _ in 0..(14 * scale) {
+        let (ck, cl) = if r.chance(1, 2) { ("p:18446744073709551615:18446744073709551615:9223372036854775807", 58) } else { ("p:18446744073709551615:18446744073709551615:18446744073709551615", 59) };
+        let coin = r.range(4_886_000_000, 4_914_000_000);
+        emit(&mut out, format!("build 10000000 5000 16384 1 I 1 {} 1 1 0 1 O 0 C {} {} n 0 0", coin, ck, cl));
+    }
+    // ... and exactly in the window where the pure output priced for the fee (coin before its own fee) is admissible but the one
+    // actually made (coin after the fee) is not: only the admission of the real output protects here
+    for k in 0..12u64 {
+        emit(&mut out, format!("build 10000000 5000 16384 1 I 1 {} 1 1 0 1 O 0 C p:18446744073709551615:18446744073709551615:9223372036854775807 58 n 0 0", 4_900_165_000 + 500 * k));
+        emit(&mut out, format!("build 10000000 5000 16384 1 I 1 {} 1 1 0 1 O 0 C p:18446744073709551615:18446744073709551615:18446744073709551615 59 n 0 0", 4_910_165_000 + 500 * k));
     }
     // --- build(): max_tx_size guard, limit = full size - 1 / = / + 1 and random
     for _ in 0..(60 * scale) {
